@@ -22,6 +22,13 @@ def signature(msg, case_lines):
     if prim in ("mins", "maxs") and "signed-difference-overflows" in msg:
         # frontend SInt compare = sign of a w-bit subtraction: only inputs whose difference does not fit into w bits
         return "%s:signed-compare-overflow" % prim
+    if prim in ("ctr_end", "ctr_w", "ctr_uend"):
+        # Counter API usage pattern (which of inc/dec/reset/load are ever called on the instance): 1 inc, 2 dec, 4 reset, 8 load
+        m3 = re.search(r"api-mask=(\d+)", msg)
+        if m3:
+            m = int(m3.group(1))
+            calls = "+".join(n for b, n in ((1, "inc"), (2, "dec"), (4, "reset"), (8, "load")) if m & b) or "none"
+            return "prim:%s:api=%s" % (prim, calls)
     return "prim:" + prim
 
 
@@ -32,16 +39,19 @@ vlib.standard_check({
     "prop_module": "GateryModel.Properties.C17",
     "exe": "gv_c17",
     "harness": "c17",
-    # harness args after the seed: <ncases> <maxw>; 37 primitive slots per round, one width per slot and round
-    "streams": {"quick": [[740, 20]], "thorough": [[4810, 130], [1480, 20], [1110, 64]]},
-    "search": [[1480, 24], [1480, 70]],
+    # harness args after the seed: <ncases> <maxw>; 41 primitive slots per round, one width per slot and round
+    # (4 of the slots sweep the 16 Counter API usage patterns: 20 rounds = every pattern for every constructor / kind of limit)
+    "streams": {"quick": [[820, 20]], "thorough": [[5330, 130], [1640, 20], [1230, 64]]},
+    "search": [[1640, 24], [1640, 70]],
     "signature": signature,
     "eval_key": "ops",
     "nontrivial": lambda t: sum(v for k, v in t.get("hist", {}).items() if not k.endswith(":err")),
     "rule": "one case = one real circuit (primitive x width(s) x parameters: bps, counter limit/reset, CRC widths/polynomial as inputs, "
             "number of adder operands); widths swept 0/1..maxw systematically first, then random with 2^k-1/2^k/2^k+1 bias; vectors exhaustive "
             "when the circuit has <= 12 input bits, else 48-64 structured-random vectors (0, 1, all-ones, 2^k, 2^k-1, sparse, dense, leading/"
-            "trailing zero runs); counters: 40-300 clock cycles of inc/dec/both/idle/load runs; evaluation = one simulated vector or clock cycle, "
+            "trailing zero runs); counters: every subset of {inc(), dec(), reset(), load(v)} ever called on the instance (16 usage patterns x 4 constructor/limit kinds, "
+            "both placement orders of load/reset), 40-300 clock cycles of inc/dec/both/idle/load/reset runs incl. several calls per cycle, "
+            "value/isLast/isFirst/becomesFirst compared every cycle; evaluation = one simulated vector or clock cycle, "
             "each compared with the structural model (DIFF) and with the arithmetic definition (PROPFAIL); pipelined variants (registered priority tree, "
             "pipelined divider) are driven with 40-90 cycle input streams and compared against the delayed definition; malformed-parameter stream 'bad' must throw",
     "trusted_base": ["Lean 4.33 kernel", "axioms: propext, Classical.choice, Quot.sound only (audited per theorem)",
@@ -56,7 +66,8 @@ vlib.standard_check({
                     "add()'s carry vector and CrcState/crcDef agreement are covered by correspondence + definition check only (no theorem)",
                     "GCD and primitives not named in the property are out of scope",
                     "inputs are fully defined (no 'x' propagation claims)"],
-    "extra_cov": lambda t: {"primitives_exercised": sorted(k for k in t.get("hist", {}) if not k.endswith(":err")),
+    "extra_cov": lambda t: {"counter_api_patterns": t.get("counter_api", {}),
+                            "primitives_exercised": sorted(k for k in t.get("hist", {}) if not k.endswith(":err")),
                             "generator_rejections": {k: v for k, v in t.get("hist", {}).items() if k.endswith(":err")},
                             "width_classes": t.get("widths", {})},
 })
